@@ -323,3 +323,24 @@ class build_hank_errors(Contract):
 
     def spec(self, c, Y, Yref, br, method, calc_unc, nb):
         raise PyRaise("AttributeError", "")
+
+
+# ----------------------------------------------------------------------------------------------------------------------
+# complex-valued records: the contracts above speak about real arrays (the verifier's "float" kind).  Bilinearity over the complex
+# numbers reduces the complex case to the real one; that reduction is searched natively on every run (labelled bounded)
+# ----------------------------------------------------------------------------------------------------------------------
+
+@register
+class build_hank_complex(Contract):
+    qualname = "pyoma2.functions.ssi.build_hank"
+    props = ("C12",)
+    name = "complex records (covariance methods)"
+    bounded_only = True
+    callable_modular = False
+    generic_replay = False
+    bounded_reason = ("unsupported: the covariance-method contracts are stated and proved for real-valued records; for complex records the statement "
+                      "'bilinear in (data, reference data)' is reduced to the real case by expansion over real and imaginary parts")
+    bounded_bound = ("1-4 channels, reference subsets in any order, 1-5 block rows, record lengths up to 90, methods cov_mm and cov_R: "
+                     "H(Y1 + iY2, R1 + iR2) = H(Y1,R1) - H(Y2,R2) + i (H(Y1,R2) + H(Y2,R1)) to 1e-9")
+    bounded_driver = {"driver": "c12_complex", "inputs": {"trials": 24, "trials_thorough": 200}}
+
